@@ -502,27 +502,55 @@ func runMassExpiry(sc sweepScenario) sweepResult {
 		}
 	}
 	if sc.Sized == 1 {
-		o.MaximumSize = 2*sc.Warm + 10
+		o.MaximumSize = 8*int(maxWriteBufferSize) + 2*sc.Warm + 10
 	}
 	if sc.SyncExec == 1 {
 		o.Executor = func(fn func()) { fn() }
 	}
+	var qmu sync.Mutex
+	var queue []func()
+	stalled := sc.Op == "mass.stall"
+	if stalled {
+		// the executor does not get round to anything while the writes arrive: the write buffer fills up and the writers that find it
+		// full run the maintenance themselves, handing it their own event
+		o.Executor = func(fn func()) {
+			qmu.Lock()
+			queue = append(queue, fn)
+			qmu.Unlock()
+		}
+		res.MassN = 3*int(maxWriteBufferSize) + 7
+	}
 	c := Must(o)
 	defer c.StopAllGoroutines()
-	for i := 0; i < sc.Warm; i++ {
+	for i := 0; i < res.MassN; i++ {
 		c.Set(i, i)
 	}
+	runQueue := func() {
+		for {
+			qmu.Lock()
+			if len(queue) == 0 {
+				qmu.Unlock()
+				break
+			}
+			fn := queue[0]
+			queue = queue[1:]
+			qmu.Unlock()
+			fn()
+		}
+	}
+	runQueue()
 	c.CleanUp()
 	time.Sleep(2 * time.Millisecond)
 	c.CleanUp()
 	clk.now.Add(sc.Jump)
 	c.CleanUp() // the one quiescent run the property speaks of
 	res.Est = c.EstimatedSize()
+	runQueue() // (notifications handed to the stalled executor)
 	for i := 0; i < 200 && sc.SyncExec == 0; i++ { // default executor: notifications are delivered by goroutines
 		mu.Lock()
 		n := len(seen)
 		mu.Unlock()
-		if n >= sc.Warm {
+		if n >= res.MassN {
 			break
 		}
 		time.Sleep(5 * time.Millisecond)
@@ -535,7 +563,7 @@ func runMassExpiry(sc sweepScenario) sweepResult {
 		}
 	}
 	if sc.Op == "mass.nohandler" {
-		res.MassExpired = sc.Warm
+		res.MassExpired = res.MassN
 	}
 	return res
 }
